@@ -111,6 +111,8 @@ struct Collector {
     log: Mutex<Vec<ReqLog>>,
     faults_left: Mutex<u32>,
     consecutive_failures: Mutex<BTreeMap<Signal, u32>>,
+    /// events are large enough for a batch to be split over several requests
+    split_batches: bool,
     conns: AtomicU32,
     refused: AtomicU32,
     trace: Mutex<Vec<String>>,
@@ -134,7 +136,7 @@ impl Collector {
         if matches!(*self.outage.lock().unwrap(), Some((s, _)) if s == signal) {
             return false;
         }
-        *self.consecutive_failures.lock().unwrap().entry(signal).or_insert(0) < 6
+        *self.consecutive_failures.lock().unwrap().entry(signal).or_insert(0) < FAIL_CAP
     }
 
     fn count_failure(&self, signal: Signal) {
@@ -149,6 +151,7 @@ impl Collector {
     fn decide(&self, signal: Signal) -> Decision {
         if self.stall_first.swap(false, Ordering::SeqCst) {
             *self.fired.lock().unwrap().entry("stall_until_client_timeout").or_insert(0) += 1;
+            self.count_failure(signal);
             return Decision::Stall;
         }
         if let Some((s, n)) = self.outage.lock().unwrap().as_mut() {
@@ -165,9 +168,14 @@ impl Collector {
         let mut left = self.faults_left.lock().unwrap();
         let mut cons = self.consecutive_failures.lock().unwrap();
         let c = cons.entry(signal).or_insert(0);
-        // faults stop inside the retry budget: never more than 6 failures in a row per signal
-        if *left == 0 || *c >= 6 {
-            *c = 0;
+        // faults stop inside the retry budget: never more than FAIL_CAP failures in a row per signal. "In a row" ends
+        // with an acknowledged request only where a batch is one request: a batch that is split over several requests
+        // is not done when one of them is acknowledged, and the client's retry budget is per batch - there the cap is
+        // on all failures of the signal in the run
+        if *left == 0 || *c >= FAIL_CAP {
+            if !self.split_batches {
+                *c = 0;
+            }
             return Decision::Ack;
         }
         let pick = self.sched.lock().choices.weighted(&[8, 2, 3, 1, 2, 2, 1, 1]);
@@ -190,7 +198,7 @@ impl Collector {
         if !matches!(d, Decision::Ack | Decision::SlowAck(_)) {
             *left -= 1;
             *c += 1;
-        } else {
+        } else if !self.split_batches {
             *c = 0;
         }
         *self.fired.lock().unwrap().entry(d.kind()).or_insert(0) += 1;
@@ -393,6 +401,8 @@ async fn http1_conn(mut stream: SimStream, col: Arc<Collector>, host: HostCfg, c
         }
         if body.len() > 256 {
             *col.fired.lock().unwrap().entry("response_with_long_body").or_insert(0) += 1;
+        }
+        if !body.is_empty() {
             if status != 200 {
                 // a client that does not read an error body to its end closes the connection under it and spends one
                 // more attempt finding that out: such a rejection costs two of the consecutive failures a signal may see
@@ -638,6 +648,10 @@ async fn grpc_stream(
     entry.done_at = Some(col.sched.now());
     col.log.lock().unwrap().push(entry);
 }
+
+/// How many failures in a row a signal may see (see `Collector::decide`): well inside the client's ten retries, also when
+/// some failures cost the client a second attempt the collector cannot see.
+const FAIL_CAP: u32 = 5;
 
 /// What a failing gRPC server says about it: short, long, percent-encoded UTF-8 (what the gRPC spec asks for), raw
 /// non-ASCII bytes (what some servers send anyway), or nothing.
@@ -1174,6 +1188,7 @@ impl Engine for OtlpSim {
             log: Mutex::new(Vec::new()),
             faults_left: Mutex::new(fault_budget),
             consecutive_failures: Mutex::new(BTreeMap::new()),
+            split_batches: big,
             conns: AtomicU32::new(0),
             refused: AtomicU32::new(0),
             trace: Mutex::new(Vec::new()),
